@@ -177,7 +177,11 @@ func (u *Unit) candidates(fn *ssa.Function, head *ssa.BasicBlock, ord int, mods 
 		t    *Term
 	}
 	var bounds []bnd
-	for i, cmp := range loopCompares(body) {
+	cmps := loopCompares(body)
+	if u.W.IntBV {
+		cmps = nil
+	}
+	for i, cmp := range cmps {
 		for j, opnd := range []ssa.Value{cmp.X, cmp.Y} {
 			// operand must not depend on modified cells: evaluate with a probe
 			if t, ok := u.pureEvalInvariant(s, f, opnd, body, mods); ok {
@@ -194,6 +198,8 @@ func (u *Unit) candidates(fn *ssa.Function, head *ssa.BasicBlock, ord int, mods 
 		}
 		cid := fmt.Sprintf("%s%s#%d", pre, cname, ci)
 		switch {
+		case isInteger(pt) && u.W.IntBV:
+			// no integer templates in bit-vector mode
 		case isInteger(pt):
 			out = append(out,
 				&candidate{cid + ">=entry", func(s *State, f *Frame, al *ActiveLoop) *Term {
@@ -246,7 +252,7 @@ func (u *Unit) candidates(fn *ssa.Function, head *ssa.BasicBlock, ord int, mods 
 			// len relation to integer counters: len(c) == i, len(c) <= i
 			for cj, d := range cells {
 				d := d
-				if d == c || !isInteger(d.Type().(*types.Pointer).Elem()) {
+				if d == c || !isInteger(d.Type().(*types.Pointer).Elem()) || u.W.IntBV {
 					continue
 				}
 				for _, off := range []int64{0, 1} {
